@@ -49,6 +49,11 @@ inductive E
   | crate (p : Rt) (inj : Bool)
   | cratel (p : Rt) (inj : Bool)
   | srate (p : Rt)
+  | regionRate (p : Rt) (inj : Bool)      -- `region_rate<rt::p, injector|producer>`
+  | crateResv (inj : Bool)                -- `crate_resv<injector|producer>`
+  | cpr                                   -- connection pressure
+  | segpress (i : Nat)                    -- `segpress<SegmentPressures::Value>` (position in the enum)
+  | nodePressure (converged : Bool)       -- `node_pressure` / `converged_node_pressure`
   | prodHist (p : HPhase)
   | injHist (p : HPhase)
   | duration
